@@ -4,6 +4,7 @@ from __future__ import annotations
 
 import ast
 
+from .common import key_of
 from ..core import AnalysisError, const_value, norm, walk_own, walk_stmts
 from ..paths import enum_paths
 from .. import ordtab
@@ -61,6 +62,24 @@ def build(ctx, rule):
                 m.merge = callee
                 m.merge_call = c
     if m.merge is None:
+        # positive evidence that intervals are merged without the adjacency test: an interval put together from the start
+        # of one node's interval and the end of another's (StableNode(contig, first.start, last.end)) in the converter itself
+        for c in walk_own(g.node):
+            if isinstance(c, (ast.Call, ast.Tuple, ast.List)):
+                args = c.args if isinstance(c, ast.Call) else c.elts
+                starts = {norm(a.value) for a in args if isinstance(a, ast.Attribute) and a.attr == "start" and isinstance(a.value, (ast.Name, ast.Subscript))}
+                ends = {norm(a.value) for a in args if isinstance(a, ast.Attribute) and a.attr == "end" and isinstance(a.value, (ast.Name, ast.Subscript))}
+                if starts and ends and not (starts & ends):
+                    from .c09 import guards_of
+
+                    st_ = None
+                    for s2 in walk_stmts(g.node.body):
+                        if not isinstance(s2, (ast.If, ast.For, ast.While, ast.With, ast.Try)) and any(x is c for x in ast.walk(s2)):
+                            st_ = s2
+                    gtxt = " ".join(norm(t_) for t_, _p in (guards_of(g.node, st_) if st_ is not None else []))
+                    if ".start" in gtxt and ".end" in gtxt:
+                        continue  # an adjacency test of its own guards the join: not decided here
+                    ctx.violated("R01.5" if ctx.prop == "C01" else "R01.5", g.where(c), f"`{norm(c)[:80]}` joins the start of one node's interval with the end of another's inside the converter, without the merge function's test that the two intervals touch: consecutive nodes of one contig and orientation that are not adjacent on the contig (a walk over a deletion edge `>s1>s3`, a loop back) become one interval that also covers the bases in between", key_of(g, f"merge-without-adjacency:{norm(c)[:50]}"))
         raise AnalysisError(rule, g.where(), "cannot find the interval merge function called by the unstable->stable converter")
     ctx.analysed_func(m.merge)
     return m
